@@ -14,6 +14,8 @@ pub mod h_repl;
 pub mod h_role;
 #[cfg(kani)]
 pub mod h_kernels;
+#[cfg(kani)]
+pub mod h_more;
 
 #[cfg(kani)]
 mod probe;
